@@ -280,9 +280,18 @@ def quat_log_relations(ctx, sign):
     """the conclusions of quat_log_lemmas(ctx, sign) as polynomial relations (terms that are zero), for certificates; with the list
     of abstraction variables they eliminate"""
     rels, elim = [], []
-    for n, f in enumerate(quat_log_families(ctx)):
+    fams = quat_log_families(ctx)
+    w0 = fams[0]['w'] if fams else None
+    sign0 = sign
+    for n, f in enumerate(fams):
         A, S1, w, S3 = f['A'], f['S1'], f['w'], f['S3']
         a1 = ctx.tfvar[S1.get_id()][1]
+        # the hemisphere hypothesis is stated on the first family's w; a family whose w is syntactically -w0 (the negated
+        # quaternion) lies in the other hemisphere
+        flip = n > 0 and z3.is_true(z3.simplify(w + w0 == 0))
+        if n > 0 and not flip and not z3.is_true(z3.simplify(w == w0)):
+            continue          # unrelated family: no relation offered (the obligation falls back to the direct query)
+        sign = -sign0 if flip else sign0
         sw = w if sign > 0 else -w
         rels += [S3 - 2 * A * sign, S1 * S1 - a1, a1 + w * w - 1]
         elim += [S3]
